@@ -64,7 +64,7 @@ static inline void* src_make(PV* vals, unsigned cnt, unsigned r)
 {
     for (unsigned i = 0; i < cnt; i++) vals[i] = nd_pv();
     void* blk = d_sym_block(u64(cnt) * ESZ);
-    lg_register(r, blk, u64(cnt) * ESZ);
+    lg_register(r, blk, u64(cnt) * ESZ); lg_layout(r, 0, ESZ);
     k_mk_array(blk, vals, cnt);
     lg_expect(r, 0, cnt, ESZ, TAG);
     return blk;
@@ -78,7 +78,7 @@ static inline void src_fin(void* blk, PV const* vals, unsigned cnt, unsigned r)
 }
 
 #define SET_HELPERS(P)                                                                                                   \
-    static inline void* P##_raw(unsigned r) { void* p = d_sym_block(k_##P##_sizeof()); lg_register(r, p, k_##P##_sizeof()); return p; } \
+    static inline void* P##_raw(unsigned r) { void* p = d_sym_block(k_##P##_sizeof()); lg_register(r, p, k_##P##_sizeof()); if (CAP > 0) lg_layout(r, k_##P##_data_off(p), ESZ); return p; } \
     /* lifetime census of a set in any valid state: returns size() */                                                    \
     static inline unsigned P##_valid(void* p, unsigned r)                                                                \
     {                                                                                                                    \
@@ -231,7 +231,7 @@ Q q_fs_erase_if()
 // replace() adopts a container. Whatever the containers hold afterwards, every element is accounted for.
 Q q_fs_extract()
 {
-    M m; void* p = fs_make(m, NA, 0); void* c = d_sym_block(k_sv_sizeof()); lg_register(1, c, k_sv_sizeof());
+    M m; void* p = fs_make(m, NA, 0); void* c = d_sym_block(k_sv_sizeof()); lg_register(1, c, k_sv_sizeof()); if (CAP > 0) lg_layout(1, k_sv_data_off(c), ESZ);
     k_fs_extract(p, c);
     u64 cn = k_sv_size(c); vf_assert(cn <= CAP, "extracted container: size() <= capacity");
     lg_expect(1, cn ? k_sv_data_off(c) : 0, (unsigned)cn, ESZ, TAG);
@@ -241,7 +241,7 @@ Q q_fs_extract()
 }
 Q q_fs_replace() // the adopted container holds NB increasing keys
 {
-    M m; void* p = fs_make(m, NA, 0); void* c = d_sym_block(k_sv_sizeof()); lg_register(1, c, k_sv_sizeof());
+    M m; void* p = fs_make(m, NA, 0); void* c = d_sym_block(k_sv_sizeof()); lg_register(1, c, k_sv_sizeof()); if (CAP > 0) lg_layout(1, k_sv_data_off(c), ESZ);
     k_sv_new(c); M m2; PV prev = 0;
     for (unsigned i = 0; i < NB; i++) { PV v = nd_pv(); if (i) vf_assume(lt(prev, v)); prev = v; k_sv_emplace_back(c, v); m2.k[m2.n++] = v; }
     k_fs_replace(p, c); fs_same(p, m2, 0);
@@ -251,14 +251,14 @@ Q q_fs_replace() // the adopted container holds NB increasing keys
 }
 Q q_fs_ctor_container() // flat_set(container const&): sorts / deduplicates a copy; the argument stays untouched
 {
-    void* c = d_sym_block(k_sv_sizeof()); lg_register(1, c, k_sv_sizeof()); k_sv_new(c); M m;
+    void* c = d_sym_block(k_sv_sizeof()); lg_register(1, c, k_sv_sizeof()); if (CAP > 0) lg_layout(1, k_sv_data_off(c), ESZ); k_sv_new(c); M m;
     for (unsigned i = 0; i < NA; i++) { PV v = nd_pv(); k_sv_emplace_back(c, v); m.insert(v); }
     void* p = fs_raw(0); k_fs_ctor_container(p, c); fs_same(p, m, 0);
     lg_expect(1, NA ? k_sv_data_off(c) : 0, NA, ESZ, TAG); k_sv_dtor(c); lg_expect(1, 0, 0, ESZ, TAG); fs_same(p, m, 0); fs_fin(p, 0); END();
 }
 Q q_fs_ctor_sorted() // flat_set(sorted_unique, container): precondition: the container is sorted and unique
 {
-    void* c = d_sym_block(k_sv_sizeof()); lg_register(1, c, k_sv_sizeof()); k_sv_new(c); M m; PV prev = 0;
+    void* c = d_sym_block(k_sv_sizeof()); lg_register(1, c, k_sv_sizeof()); if (CAP > 0) lg_layout(1, k_sv_data_off(c), ESZ); k_sv_new(c); M m; PV prev = 0;
     for (unsigned i = 0; i < NA; i++) { PV v = nd_pv(); if (i) vf_assume(lt(prev, v)); prev = v; k_sv_emplace_back(c, v); m.k[m.n++] = v; }
     void* p = fs_raw(0); k_fs_ctor_sorted(p, c); fs_same(p, m, 0);
     lg_expect(1, NA ? k_sv_data_off(c) : 0, NA, ESZ, TAG); k_sv_dtor(c); lg_expect(1, 0, 0, ESZ, TAG); fs_same(p, m, 0); fs_fin(p, 0); END();
